@@ -177,10 +177,9 @@ static ZSTDMT_bufferPool* ZSTDMT_expandBufferPool(ZSTDMT_bufferPool* srcBufPool,
     /* need a larger buffer pool */
     {   ZSTD_customMem const cMem = srcBufPool->cMem;
         size_t const bSize = srcBufPool->bufferSize;   /* forward parameters */
-        ZSTDMT_bufferPool* newBufPool;
+        ZSTDMT_bufferPool* const newBufPool = ZSTDMT_createBufferPool(maxNbBuffers, cMem);
+        if (newBufPool==NULL) return NULL;   /* srcBufPool remains valid */
         ZSTDMT_freeBufferPool(srcBufPool);
-        newBufPool = ZSTDMT_createBufferPool(maxNbBuffers, cMem);
-        if (newBufPool==NULL) return newBufPool;
         ZSTDMT_setBufferSize(newBufPool, bSize);
         return newBufPool;
     }
@@ -411,8 +410,10 @@ static ZSTDMT_CCtxPool* ZSTDMT_expandCCtxPool(ZSTDMT_CCtxPool* srcPool,
     if (nbWorkers <= srcPool->totalCCtx) return srcPool;   /* good enough */
     /* need a larger cctx pool */
     {   ZSTD_customMem const cMem = srcPool->cMem;
+        ZSTDMT_CCtxPool* const newPool = ZSTDMT_createCCtxPool(nbWorkers, cMem);
+        if (newPool==NULL) return NULL;   /* srcPool remains valid */
         ZSTDMT_freeCCtxPool(srcPool);
-        return ZSTDMT_createCCtxPool(nbWorkers, cMem);
+        return newPool;
     }
 }
 
@@ -1066,12 +1067,19 @@ static size_t ZSTDMT_resize(ZSTDMT_CCtx* mtctx, unsigned nbWorkers)
 {
     if (POOL_resize(mtctx->factory, nbWorkers)) return ERROR(memory_allocation);
     FORWARD_IF_ERROR( ZSTDMT_expandJobsTable(mtctx, nbWorkers) , "");
-    mtctx->bufPool = ZSTDMT_expandBufferPool(mtctx->bufPool, BUF_POOL_MAX_NB_BUFFERS(nbWorkers));
-    if (mtctx->bufPool == NULL) return ERROR(memory_allocation);
-    mtctx->cctxPool = ZSTDMT_expandCCtxPool(mtctx->cctxPool, nbWorkers);
-    if (mtctx->cctxPool == NULL) return ERROR(memory_allocation);
-    mtctx->seqPool = ZSTDMT_expandSeqPool(mtctx->seqPool, nbWorkers);
-    if (mtctx->seqPool == NULL) return ERROR(memory_allocation);
+    /* on failure, the existing pools are left untouched, so that the context remains usable */
+    {   ZSTDMT_bufferPool* const bufPool = ZSTDMT_expandBufferPool(mtctx->bufPool, BUF_POOL_MAX_NB_BUFFERS(nbWorkers));
+        if (bufPool == NULL) return ERROR(memory_allocation);
+        mtctx->bufPool = bufPool;
+    }
+    {   ZSTDMT_CCtxPool* const cctxPool = ZSTDMT_expandCCtxPool(mtctx->cctxPool, nbWorkers);
+        if (cctxPool == NULL) return ERROR(memory_allocation);
+        mtctx->cctxPool = cctxPool;
+    }
+    {   ZSTDMT_seqPool* const seqPool = ZSTDMT_expandSeqPool(mtctx->seqPool, nbWorkers);
+        if (seqPool == NULL) return ERROR(memory_allocation);
+        mtctx->seqPool = seqPool;
+    }
     ZSTDMT_CCtxParam_setNbWorkers(&mtctx->params, nbWorkers);
     return 0;
 }
